@@ -52,9 +52,46 @@ LINES = ['@dec\n', 'else:\n', 'elif y:\n', 'except E:\n', 'finally:\n', 'try:\n'
          'async def g():\n', '  x\n', '\tx\n', ' \\\n', 'f"""{\n', 'for a in b:\n', 'while 1:\n', 'with a as b:\n', '\f\n',
          '        y = 2\n', 'import a\n', 'x = 1 \\\n', '    else:\n', '    def m(self):\n', '        pass\n', 'a = """\n']
 
+HEADERS = ['def f(a):', 'async def g(b):', 'class C(Base):', 'if x:', 'for i in y:', 'while z:', 'try:', 'with a as b:',
+           'async with a:', 'async for i in y:', 'def h(a, /, b=1, *, c):', 'class D:']
+DECOS = ['@dec', '@d.e(1)', '@staticmethod', '@a.b']
+BODY = ['pass', 'x = 1', 'return x', 'y = f(x)', 'yield x', 'await z', 'x += 1', "'''doc'''", 'print(x)', 'raise E', 'x = [', ']',
+        'foo(', ')', '# comment', '', 'lambda: 0', 'import os', 'global g', 'z = (1 +', '   2)']
+FOLLOW = {'if': ['elif y:', 'else:'], 'for': ['else:'], 'while': ['else:'], 'try': ['except E as e:', 'except:', 'else:', 'finally:'],
+          'async': []}
+
+
+@st.composite
+def skeleton(draw):
+    """Structured program text: (decorated / async) defs, classes and flows with bodies, nested up to 3 levels."""
+    unit = draw(st.sampled_from(['    ', '  ', '\t']))
+    return ''.join(_block(draw, 0, unit, 0) for _ in range(draw(st.integers(1, 4))))
+
+
+def _block(draw, level, unit, depth):
+    ind = unit * level
+    kind = draw(st.integers(0, 9))
+    if kind < 3 or depth >= 3:
+        return ind + draw(st.sampled_from(BODY)) + '\n'
+    out = []
+    head = draw(st.sampled_from(HEADERS))
+    if head.startswith(('def', 'async def', 'class')):
+        for _ in range(draw(st.integers(0, 2))):
+            out.append(ind + draw(st.sampled_from(DECOS)) + '\n')
+    out.append(ind + head + '\n')
+    for _ in range(draw(st.integers(1, 3))):
+        out.append(_block(draw, level + 1, unit, depth + 1))
+    for follow in FOLLOW.get(head.split()[0].rstrip(':'), []):
+        if draw(st.integers(0, 2)) == 0:
+            out.append(ind + follow + '\n')
+            out.append(_block(draw, level + 1, unit, depth + 1))
+    return ''.join(out)
+
+
 _op = st.tuples(
     st.sampled_from(['insline', 'insline', 'dupline', 'delrange', 'delrange', 'inscol', 'inscol', 'repcol', 'delcol',
-                     'indent', 'dedent', 'corpusline', 'bom', 'finalnl', 'nlstyle', 'undo', 'noop', 'movelines']),
+                     'indent', 'dedent', 'corpusline', 'bom', 'finalnl', 'nlstyle', 'undo', 'noop', 'movelines',
+                     'appendbody', 'appendbody', 'appendbody', 'appendeof', 'insheader']),
     st.integers(0, 10 ** 6), st.integers(0, 10 ** 6),
     st.one_of(st.sampled_from(EDIT_FRAGS), st.sampled_from(LINES), T.fragment()),
 )
@@ -123,6 +160,21 @@ def apply_op(lines, op, history, corpus):
         nl = ['\r\n', '\r', '\n'][(b // 6) % 3]
         for j in range(i, min(n, i + k)):
             lines[j] = re.sub(r'(\r\n|\r|\n)\Z', lambda m: nl, lines[j])
+    elif kind in ('appendbody', 'appendeof', 'insheader') and n:
+        # a new statement / header at the indentation of an existing line (appendeof: of the last non-blank line)
+        i = (n - 1) if kind == 'appendeof' else a % n
+        j = i
+        while j > 0 and not lines[j].strip():
+            j -= 1
+        ref = lines[j]
+        ind = ref[:len(ref) - len(ref.lstrip(' \t'))]
+        if not ref.endswith(('\n', '\r')):
+            lines[j] = ref + '\n'
+        if kind == 'insheader':
+            new = ind + HEADERS[b % len(HEADERS)] + '\n'
+        else:
+            new = ind + BODY[b % len(BODY)] + ('\n' if (b // 31) % 5 else '')
+        lines.insert(i + 1, new)
     elif kind == 'undo' and history:
         return ref_split_lines(history[a % len(history)], True)
     # 'noop' and fall-through: unchanged
@@ -143,7 +195,7 @@ def corpus():
 @st.composite
 def history(draw, kinds=('repo',)):
     v = draw(T.version())
-    start = draw(st.one_of(T.corpus_window(kinds, max_lines=30), T.corpus_window(kinds, max_lines=12, dedent=True),
+    start = draw(st.one_of(skeleton(), skeleton(), T.corpus_window(kinds, max_lines=30), T.corpus_window(kinds, max_lines=12, dedent=True),
                            T.corpus_window(kinds, max_lines=30), T.soup(15),
                            st.lists(st.sampled_from(LINES), max_size=12).map(''.join)))
     ops = draw(st.lists(_op, min_size=1, max_size=10))
